@@ -185,8 +185,16 @@ func c04Direct(rc *core.RunCtx) {
 	}
 	// leader record switches between the instances (and sometimes disappears)
 	s.Spawn(-1, "leader-switcher", func() {
+		fast := rc.Knob("switch_pace", 2) == 1
 		for running > 0 {
-			simrt.Sleep(time.Duration(1+s.Choose(20, "sw.gap")) * time.Millisecond)
+			if fast {
+				// step-paced: the leader record flips while allocators sit between their read and their transaction
+				for y := 1 + s.Choose(12, "sw.yields"); y > 0; y-- {
+					simrt.Yield("switcher")
+				}
+			} else {
+				simrt.Sleep(time.Duration(1+s.Choose(20, "sw.gap")) * time.Millisecond)
+			}
 			k := s.Choose(nInst+1, "sw.to")
 			if k == nInst {
 				etcd.DeleteDirect(path.Join(root, "leader"))
